@@ -34,6 +34,8 @@ RULE = (
 STRS = ["", "a", "b", "ab", "aab", "abc", "a\nb", "\n", '"', "\\", "a\\tb", "ä", "€", "0", "7", "12", "007", "100", " ", "]", "^", "-", "a.b", "\t", "xx", "a]b", "z", "A", "a" * 5, "ab" * 3]
 NUMERALS = ["0", "7", "12", "007", "100", "9999"]
 INTS = [0, 1, -1, 2, -2, 3, 5, -5, 7, 10, -10, 100, -7, 12345678901234567890]
+# beyond the 53 bits a float represents exactly
+BIG = [2**53 + 1, 9999999999999999, -(2**53 + 1), 10**18 + 3, 2**64 + 1, 10**30 + 7, 12345678901234567890]
 
 
 class Gen:
@@ -75,7 +77,7 @@ class Gen:
         r = self.rng
         k = r.random()
         if d <= 0 or k < 0.3:
-            return ("int", r.choice(INTS[:-1]) if r.random() < 0.97 else INTS[-1])
+            return ("int", r.choice(INTS[:-1]) if r.random() < 0.93 else r.choice(BIG))
         if k < 0.42:
             return ("len", self.s(d - 1))
         if k < 0.5:
@@ -100,7 +102,8 @@ class Gen:
             if j < 0.5:
                 return ("str", r.choice(["a", "b", "ab", "", "\n", ".", "a.b", "]", "^", "-", "\\", "ä", "0", "12", "a\\tb"]))
             if j < 0.85:
-                a, b = r.choice([("a", "c"), ("0", "9"), ("a", "z"), ("A", "z"), ("]", "a"), ("!", "/"), ("\\", "b"), ("b", "a"), ("", "a"), (" ", "~"), ("\t", "\r")])
+                a, b = r.choice([("a", "c"), ("0", "9"), ("a", "z"), ("A", "z"), ("]", "a"), ("!", "/"), ("\\", "b"), ("b", "a"), ("", "a"), (" ", "~"), ("\t", "\r"),
+                                   ("^", "z"), ("^", "^"), ("-", "a"), ("[", "]"), ("*", "+"), ("(", ")"), (".", "9"), ("$", "&"), ("{", "}"), ("|", "~"), ("?", "A"), ("\\", "^")])
                 return ("range", a, b)
             return (r.choice(["allchar", "all", "none"]),)
         if k < 0.45:
@@ -486,6 +489,68 @@ def check_terms(ctx: Ctx, cases, origin: str):
         ctx.sample({"term": t_z3(subst(t, g.inst)).sexpr()[:300]})
 
 
+def zero_divisor_cases(rng, n):
+    """atoms in which a divisor depends on a variable and is zero under the instantiation, but which Z3 decides whatever
+    value the division takes (t = t, t <= t, tautological context): the instantiation path of evaluate_smt_formula must
+    leave them to Z3 instead of answering False"""
+    out = []
+    for _ in range(n):
+        g = Gen(rng, 2)
+        g.inst["v0"] = ""
+        g.num_vars = []
+        k = rng.choice([1, 5, 7, -3, 10**17 + 1])
+        op = rng.choice(["div", "mod"])
+        divisor = rng.choice([("len", ("var", "v0")), ("indexof", ("var", "v0"), ("str", ""), ("int", 0)), ("sub", [("len", ("var", "v0")), ("len", ("var", "v0"))])])
+        t = (op, ("int", k), divisor)
+        shape = rng.random()
+        if shape < 0.4:
+            b = ("eq", t, t)
+        elif shape < 0.6:
+            b = (rng.choice(["le", "ge"]), t, t)
+        elif shape < 0.8:
+            b = ("or", [("eq", ("var", "v1"), ("var", "v1")), ("lt", t, ("int", 0))])
+        else:
+            b = ("not", ("lt", t, t))
+        out.append((b, g))
+    return out
+
+
+def big_int_cases(rng, n):
+    """integer arithmetic beyond 53 bits (exact in SMT-LIB and in Python ints, not in floats)"""
+    out = []
+    for _ in range(n):
+        g = Gen(rng, 1)
+        a = rng.choice(BIG) + rng.randint(-3, 3)
+        b = rng.choice([2, 3, 7, -7, 10, 1000, rng.choice(BIG)])
+        op = rng.choice(["div", "mod", "mod", "mul", "add", "sub"])
+        t = (op, ("int", a), ("int", b)) if op in ("div", "mod") else (op, [("int", a), ("int", b)])
+        py = {"div": None, "mod": None, "mul": a * b, "add": a + b, "sub": a - b}[op]
+        if op == "mod":
+            py = a % abs(b)
+        if op == "div":
+            q = (a - (a % abs(b))) // abs(b)
+            py = q if b > 0 else -q
+        rhs = ("int", py + rng.choice([0, 0, 1, -1]))
+        out.append(((rng.choice(["eq", "le", "lt", "ge"]), t, rhs), g))
+    return out
+
+
+def metachar_range_cases(rng, n):
+    """re.range whose bounds are characters with a meaning in Python's pattern / character-class syntax"""
+    meta = list("^-]\\[.*+?(){}|$&~#/")
+    out = []
+    for _ in range(n):
+        g = Gen(rng, 1)
+        lo, hi = rng.choice(meta), rng.choice(meta + ["z", "a", "~"])
+        probe = rng.choice([lo, hi, chr(ord(lo) - 1) if ord(lo) > 33 else lo, chr(ord(hi) + 1), "A", "^", "\\", "]", "-", "a"])
+        g.inst["v0"] = probe
+        r = ("range", lo, hi)
+        if rng.random() < 0.3:
+            r = rng.choice([("star", r), ("comp", r), ("union", [r, ("str", "zz")])])
+        out.append((("inre", ("var", "v0") if rng.random() < 0.7 else ("str", probe), r), g))
+    return out
+
+
 def signed_numerals(ctx: Ctx):
     """str.to.int on signed numerals: in the property's scope; ISLa deliberately deviates from Z3"""
     g = Gen(ctx.rng, 0)
@@ -517,7 +582,10 @@ def run(ctx: Ctx):
     for i in range(n):
         g = Gen(ctx.rng, ctx.rng.choice([0, 1, 2, 2]))
         cases.append((g.b(ctx.rng.randint(1, 3)), g))
-    for i in range(0, n, 200):
+    cases.extend(zero_divisor_cases(ctx.rng, n // 10))
+    cases.extend(metachar_range_cases(ctx.rng, n // 10))
+    cases.extend(big_int_cases(ctx.rng, n // 12))
+    for i in range(0, len(cases), 200):
         ctx.check_time()
         check_terms(ctx, cases[i : i + 200], "generated")
     signed_numerals(ctx)
